@@ -2,8 +2,10 @@
 //! cvh - conformance harness for caches-rs.  It executes specification behaviours and random
 //! histories on the real library (built from /repo's working tree with the `verif-hooks`
 //! feature) and logs what happened; all judging is done by TLC against the TLA+ specification.
+mod ctor;
 mod exec;
 mod hashers;
+mod lfu;
 mod qalloc;
 mod sut;
 mod track;
@@ -140,6 +142,9 @@ fn main() {
                        "quarantined": qalloc::QUARANTINED.load(std::sync::atomic::Ordering::Relaxed)})
             );
         }
+        "ctor" => eprintln!("{}", ctor::run(&a)),
+        "tinylfu" => eprintln!("{}", lfu::run::<lfu::Tl>(&a)),
+        "sampled" => eprintln!("{}", lfu::run::<lfu::Sl>(&a)),
         o => {
             eprintln!("unknown command {o}");
             std::process::exit(2);
